@@ -83,4 +83,23 @@ example :
         (fun r => (r.1.mpc, r.1.cbs, r.2)) = some (.inRead, [(1, .gone)], [.esc [] 0x41]) := by
   refine ⟨?_, ?_, ?_, ?_, ?_⟩ <;> decide +kernel
 
+/-- **Both groupings at once.**  `TimerOk` table, start state meeting `FInv`, a schedule that runs to `r`
+    and ends neither between a read return and its `Stop()` nor with a callback between its failed
+    check / `p.ignoreST = false` and its `Unlock`: `cbNorm T none f0 (readNorm T none f0 ls)` is a
+    permutation with the same result in which every `readRet` is directly followed by `.main` and every
+    callback statement leading to `failed` / `stSet` directly by that callback's `Unlock` — the
+    statements of every harness label of Model/ParserRunSched.lean stand together. -/
+theorem grouped_adjacent_form (T : Table) (hT : VaxisModel.Lemmas.ParserRunFine.TimerOk T) (f0 : FSys)
+    (hinv : VaxisModel.Lemmas.ParserRunFine.FInv f0) (ls : List FLabel) (r : FSys × List Seq)
+    (h : FSys.run T f0 ls = some r) (hend1 : ∀ i, r.1.mpc ≠ .readDone i)
+    (hend2 : ∀ c ∈ r.1.cbs, c.2 ≠ .failed ∧ c.2 ≠ .stSet) :
+    ∃ ls', FSys.run T f0 ls' = some r ∧ ls'.Perm ls ∧ readAdj ls' = true ∧ cbAdj T f0 ls' = true := by
+  have h1 : FSys.run T f0 (readNorm T none f0 ls) = some r := by rw [readNorm_run]; exact h
+  refine ⟨cbNorm T none f0 (readNorm T none f0 ls), ?_, ?_, ?_, ?_⟩
+  · rw [cbNorm_run T hT _ none f0 hinv (fun _ h => by cases h)]; exact h1
+  · exact (cbNorm_perm T _ none f0).trans (readNorm_perm T ls none f0)
+  · exact (cbNorm_readAdj T hT noHalf _ none f0 hinv (fun _ h => by cases h) ⟨r, h1, hend2⟩
+      (readNorm_adj T ls none f0 ⟨r, h, hend1⟩)).1
+  · exact cbNorm_adj T hT _ none f0 hinv (fun _ h => by cases h) ⟨r, h1, hend2⟩
+
 end VaxisModel.Props.C08SchedGroup
